@@ -522,13 +522,17 @@ func getNextPos(slice1, slice2 []uint64, slice1Idx, slice2Idx int) (uint64, int,
 	}
 
 	// Attempt to grab the sibling of the current position to process.
+	//
+	// Only a left child can have the next position as its sibling. For a
+	// right child rightSib returns the position itself so a duplicate of
+	// it must not be taken as a sibling.
 	sibIdx := nextLeastSlice(slice1, slice2, slice1Idx, slice2Idx)
 	if sibIdx == 0 {
-		if rightSib(pos) != slice1[slice1Idx] {
+		if !isLeftNiece(pos) || rightSib(pos) != slice1[slice1Idx] {
 			sibIdx = -1
 		}
 	} else if sibIdx == 1 {
-		if rightSib(pos) != slice2[slice2Idx] {
+		if !isLeftNiece(pos) || rightSib(pos) != slice2[slice2Idx] {
 			sibIdx = -1
 		}
 	}
